@@ -319,5 +319,11 @@ class ResolveArgumentsUnresolved(ResolveArguments):
         return [('an-unresolved-reference-never-becomes-the-text-None', bool(same(st.env['arguments'], st.want, c)))]
 
 
-TARGETS = [ResolveArguments(), ResolveArgumentsDirectFirst(), ResolveArgumentsUnresolved(), ResolveOutputContents(), DataReferencesOrder()]
+# the objects the substitution loop walks are graph.DataReference instances: their absolute / relative spellings (C09's
+# contract on the real classes) are part of "either spelling" here
+from pyvc.spec import shared as _shared
+import contracts.C09 as _c09
+REFERENCE_CLASSES = [_shared(_c09.DataReferenceClass(), 'C10'), _shared(_c09.ComponentIdentifierClass(), 'C10')]
+
+TARGETS = [ResolveArguments(), ResolveArgumentsDirectFirst(), ResolveArgumentsUnresolved(), ResolveOutputContents(), DataReferencesOrder()] + REFERENCE_CLASSES
 LEMMAS = []
